@@ -687,11 +687,12 @@ func dominatesInstr(a, b ssa.Instruction) bool {
 	return a.Block().Dominates(b.Block())
 }
 
-// returnsOf lists the Return instructions of fn.
+// returnsOf lists the Return instructions of fn (excluding the synthetic
+// recover block of functions with defers).
 func returnsOf(fn *ssa.Function) []*ssa.Return {
 	var out []*ssa.Return
 	for _, b := range fn.Blocks {
-		if len(b.Instrs) == 0 {
+		if len(b.Instrs) == 0 || b == fn.Recover {
 			continue
 		}
 		if r, ok := b.Instrs[len(b.Instrs)-1].(*ssa.Return); ok {
@@ -789,5 +790,33 @@ func phiSources(v ssa.Value) []ssa.Value {
 		out = append(out, x)
 	}
 	rec(v)
+	return out
+}
+
+// resolvedResults returns the operands of r, looking through go/ssa's
+// defer-induced spilling of results: in a function with defers each return
+// stores its operands to result locals, runs the defers and returns loads of
+// those locals. The stored values are returned instead of the loads.
+func resolvedResults(r *ssa.Return) []ssa.Value {
+	out := make([]ssa.Value, len(r.Results))
+	for i, v := range r.Results {
+		out[i] = v
+		ld, ok := v.(*ssa.UnOp)
+		if !ok || ld.Op != token.MUL {
+			continue
+		}
+		al, ok := ld.X.(*ssa.Alloc)
+		if !ok || al.Heap {
+			continue
+		}
+		// latest store to al in the same block before the load
+		instrs := r.Block().Instrs
+		for j := instrIndex(ld) - 1; j >= 0; j-- {
+			if st, ok := instrs[j].(*ssa.Store); ok && st.Addr == al {
+				out[i] = st.Val
+				break
+			}
+		}
+	}
 	return out
 }
